@@ -79,6 +79,33 @@ def err_event(o):
     return ev
 
 
+CONSTRUCT = False
+
+
+def construct_outcome(docs, safes=None):
+    """Config(<merged tree>): status "ok" | "RequiredError" (+ reported paths) | other error class,
+    and how many recording targets were called"""
+    import re
+    import vmod
+    from awesomeyaml.config import Config
+    import awesomeyaml.errors as errors
+    t = build_tree(docs, safes)
+    del vmod.CALLS[:]
+    try:
+        Config(t)
+        return {"status": "ok", "paths": [], "calls": len(vmod.CALLS)}
+    except errors.Error as e:
+        return {"status": type(e).__name__, "paths": [], "calls": len(vmod.CALLS)}
+    except ValueError as e:
+        msg = str(e)
+        if msg.startswith("The following required nodes have not been set"):
+            paths = [P.path_keys(m) for m in re.findall(r"^\s+'(.*)'\s*$", msg, flags=re.M)]
+            return {"status": "RequiredError", "paths": paths, "calls": len(vmod.CALLS)}
+        return {"status": "Crash:ValueError", "paths": [], "calls": len(vmod.CALLS)}
+    except Exception as e:  # noqa
+        return {"status": "Crash:" + type(e).__name__, "paths": [], "calls": len(vmod.CALLS)}
+
+
 def history_trace(tid, docs, safes=None):
     safes = safes if safes is not None else [True] * len(docs)
     ev = [{"e": "AddSource", "sd": d, "safe": bool(s)} for d, s in zip(docs, safes)]
@@ -88,6 +115,10 @@ def history_trace(tid, docs, safes=None):
         ev.append({"e": "FlattenFirst" if j == 0 else "MergeStage", "acc": o2})
     if outs and "err" not in outs[-1]:
         ev.append({"e": "Finish"})
+        if CONSTRUCT:
+            c = construct_outcome(docs, safes)
+            c["e"] = "Construct"
+            ev.append(c)
     return {"tid": tid, "ev": ev}
 
 
